@@ -53,7 +53,7 @@ def run_structure(run, pid, kind, dialects, cfgs):
                 for trait, method, production in SCHEMA_PRODUCTIONS:
                     if production in grammar.grammar(d).ast:
                         total += grammar.check_production(run, pid + ".R1", f, cfg, d, trait, method, production)
-                run.floor(pid + ".R1", "%s:grammar-nfa-states" % d, total, 300, cfg)
+                run.floor(pid + ".R1", "%s:grammar-nfa-states" % d, total, 200, cfg)
         ns = stmt.check_separators(run, pid + ".R2", f, cfg, select=sel)
         run.floor(pid + ".R2", "separated-lists", ns, 8 if kind == "query" else 3, cfg)
         npar = stmt.check_parens(run, pid + ".R2", f, cfg, select=sel)
